@@ -131,46 +131,79 @@ class O3:
 
     # ---- guards -------------------------------------------------------------------------------
     def guard_at(self, b, bi):
-        """description of the dominating uniqueness guard at block bi, or None"""
+        """description of the uniqueness guard that protects block bi, or None: a dominating guard edge, or
+        (path form) every entry->bi path crosses some guard edge"""
         rels = relations_at(b, bi, self.facts, inline=True)
         for r in rels:
-            if r[0] == "eq":
-                x, y = uncast(r[1]), uncast(r[2])
-                for (p, q) in ((x, y), (y, x)):
-                    if q == ("const", 1) and is_load(p, self.rc_fields):
-                        return "refcount load(Acquire) == 1"
-                    if q == ("const", 1) and isinstance(p, tuple) and p[0] == "call" and p[1].endswith("fetch_sub"):
-                        return "`== 1` edge of the decrementing RMW"
-                    # unshared-kind guard: (data as usize) & MASK == KIND_VEC
-                    k = self.kind_guard(p, q, True, b)
-                    if k:
-                        return k
-            if r[0] == "ne":
-                x, y = uncast(r[1]), uncast(r[2])
-                for (p, q) in ((x, y), (y, x)):
-                    k = self.kind_guard(p, q, False, b)
-                    if k:
-                        return k
-            if r[0] == "truth":
-                e, v = uncast(r[1]), r[2]
-                # crate predicate whose whole body is `refcount.load(Acquire) == 1` (Shared::is_unique)
-                if v == 1 and e[0] == "call":
-                    cands = self.facts.by_id.get(e[1], [])
-                    if len(cands) == 1:
-                        from .flow import return_expr
-                        re_ = return_expr(cands[0], self.facts, inline=False)
-                        if isinstance(re_, tuple) and re_[0] == "bin" and re_[1] == "Eq":
-                            for (p_, q_) in ((re_[2], re_[3]), (re_[3], re_[2])):
-                                if q_ == ("const", 1) and is_load(p_, self.rc_fields):
-                                    return "%s() [= refcount.load(Acquire) == 1]" % "::".join(e[1].rsplit("::", 2)[-2:])
-                # is_ok(&compare_exchange(1, 0, succ>=Acquire, _)) == true
-                for x in walk(e):
-                    if x[0] == "call" and x[1].endswith("compare_exchange") and trailing_field(x[2][0]) in self.rc_fields:
-                        okcall = e[0] == "call" and e[1].endswith("is_ok") and v == 1
-                        okdiscr = e[0] == "discr" and v == 0
-                        succ = ordering_of(x[2][3]) if len(x[2]) > 3 else None
-                        if (okcall or okdiscr) and x[2][1] == ("const", 1) and x[2][2] == ("const", 0) and succ in HAS_ACQUIRE:
-                            return "Ok edge of refcount CAS 1->0 (%s)" % succ
+            g = self.rel_guard(r, b)
+            if g:
+                return g
+        # path form: remove every guard edge from the CFG; bi must become unreachable from the entry
+        from .flow import edge_conditions, normalize_cmp, cfg_of
+        cfg = cfg_of(b)
+        gedges = {}
+        for (s_, d_, c, v) in edge_conditions(b, self.facts, inline=True):
+            g = self.rel_guard(normalize_cmp(c, v), b)
+            if g:
+                gedges[(s_, d_)] = g
+        if not gedges:
+            return None
+        seen = {0}
+        st = [0]
+        while st:
+            x = st.pop()
+            if x == bi:
+                return None
+            for y in cfg.succ[x]:
+                if (x, y) in gedges or y in seen:
+                    continue
+                # a block with two switch edges to the same successor: only skip when all are guards
+                seen.add(y)
+                st.append(y)
+        if bi in seen:
+            return None
+        return "every path crosses a guard edge (%s)" % "; ".join(sorted(set(gedges.values())))
+
+    def rel_guard(self, r, b):
+        """is this single relation a uniqueness / unshared-kind guard?"""
+        if r[0] == "eq":
+            x, y = uncast(r[1]), uncast(r[2])
+            for (p, q) in ((x, y), (y, x)):
+                if q == ("const", 1) and is_load(p, self.rc_fields):
+                    return "refcount load(Acquire) == 1"
+                if q == ("const", 1) and isinstance(p, tuple) and p[0] == "call" and p[1].endswith("fetch_sub"):
+                    return "`== 1` edge of the decrementing RMW"
+                k = self.kind_guard(p, q, True, b)
+                if k:
+                    return k
+        if r[0] == "ne":
+            x, y = uncast(r[1]), uncast(r[2])
+            for (p, q) in ((x, y), (y, x)):
+                k = self.kind_guard(p, q, False, b)
+                if k:
+                    return k
+        if r[0] == "truth":
+            e, v = uncast(r[1]), r[2]
+            if not isinstance(e, tuple) or not e:
+                return None
+            # crate predicate whose whole body is `refcount.load(Acquire) == 1` (Shared::is_unique)
+            if v == 1 and e[0] == "call":
+                cands = self.facts.by_id.get(e[1], [])
+                if len(cands) == 1:
+                    from .flow import return_expr
+                    re_ = return_expr(cands[0], self.facts, inline=False)
+                    if isinstance(re_, tuple) and re_[0] == "bin" and re_[1] == "Eq":
+                        for (p_, q_) in ((re_[2], re_[3]), (re_[3], re_[2])):
+                            if q_ == ("const", 1) and is_load(p_, self.rc_fields):
+                                return "%s() [= refcount.load(Acquire) == 1]" % "::".join(e[1].rsplit("::", 2)[-2:])
+            # is_ok(&CAS(1, 0, succ >= Acquire, _)) == true   /   is_err(..) == false   /   discriminant == Ok
+            for x in walk(e):
+                if x[0] == "call" and x[1].endswith("compare_exchange") and trailing_field(x[2][0]) in self.rc_fields:
+                    okcall = e[0] == "call" and ((e[1].endswith("is_ok") and v == 1) or (e[1].endswith("is_err") and v == 0))
+                    okdiscr = e[0] == "discr" and v == 0
+                    succ = ordering_of(x[2][3]) if len(x[2]) > 3 else None
+                    if (okcall or okdiscr) and x[2][1] == ("const", 1) and x[2][2] == ("const", 0) and succ in HAS_ACQUIRE:
+                        return "Ok edge of refcount CAS 1->0 (%s)" % succ
         return None
 
     def kind_guard(self, p, q, is_eq, b):
